@@ -2048,4 +2048,12 @@ example : eMax [some (.fin 2), none, some .pinf, some .ninf] = some .pinf ∧ eM
     eQuantile (1/2) [some (.fin 1), some (.fin 3), some .pinf] = some (.fin 3) := by decide +kernel
 
 
+
+/-- quantile with q outside [0,1]: −∞ / +∞ where the column has a point, nothing where every input point is missing; the tree
+    before fixes/C27-quantile-out-of-range.diff emitted ±∞ there too (a point where there is nothing to aggregate) -/
+theorem quantile_out_of_range :
+    eQuantile (-1/2) [none, none] = none ∧ eQuantile (3/2) [none] = none ∧
+    eQuantile (-1/2) [none, some (.fin 7)] = some .ninf ∧ eQuantile (3/2) [some (.fin 7), none] = some .pinf ∧
+    eQuantileOutOld (-1/2) [none, none] = some .ninf ∧ eQuantileOutOld (3/2) [none] = some .pinf := by decide +kernel
+
 end SH.Props.C27
